@@ -1,6 +1,7 @@
 package gen
 
 import (
+	"bwverif/cv"
 	"fmt"
 	"math/rand"
 	"time"
@@ -47,7 +48,7 @@ func DataSet(rng *rand.Rand, graphs, size int, numeric bool) bq.Data {
 			if rng.Intn(3) == 0 {
 				t = MustTriple(t.Subject(), t.Predicate(), triple.NewNodeObject(VNodes[rng.Intn(len(VNodes))]))
 			}
-			k := t.String()
+			k := cv.Triple(t)
 			if !seen[k] {
 				seen[k] = true
 				ts = append(ts, t)
@@ -368,6 +369,16 @@ func RenameBinding(c bq.Clause, from, to string) bq.Clause {
 // earlier clauses, never putting a TYPE/ID string binding into a subject,
 // predicate or object position (Appendix A leaves that join undefined).
 func Share(rng *rand.Rand, earlier []bq.Clause, c2 bq.Clause, k int) (bq.Clause, int) {
+	return share(rng, earlier, c2, k, false)
+}
+
+// SharePos is Share restricted to the subject / predicate / object bindings of
+// c2 (its extraction bindings stay fresh).
+func SharePos(rng *rand.Rand, earlier []bq.Clause, c2 bq.Clause, k int) (bq.Clause, int) {
+	return share(rng, earlier, c2, k, true)
+}
+
+func share(rng *rand.Rand, earlier []bq.Clause, c2 bq.Clause, k int, onlyPos bool) (bq.Clause, int) {
 	prev := map[string]string{}
 	var prevNames []string
 	for _, c := range earlier {
@@ -387,7 +398,7 @@ func Share(rng *rand.Rand, earlier []bq.Clause, c2 bq.Clause, k int) (bq.Clause,
 		s2 := bindingSorts(c2)
 		var own []string
 		for b := range s2 {
-			if _, isPrev := prev[b]; !isPrev {
+			if _, isPrev := prev[b]; !isPrev && (!onlyPos || s2[b] == "pos") {
 				own = append(own, b)
 			}
 		}
@@ -484,4 +495,56 @@ func Reproject(rng *rand.Rand, q *bq.Query) {
 	if len(vs) > 0 {
 		q.Vars = vs
 	}
+}
+
+// FriendlyShapes are shapes that tend to match: a binding or stored node as
+// subject, a stored / bound / variable predicate, a binding or node as object.
+func FriendlyShapes() []Shape {
+	var res []Shape
+	for _, sh := range ReducedShapes() {
+		sn, pn, on := SForms[sh.S].name, PForms[sh.P].name, OForms[sh.O].name
+		if sn == "absent" || pn == "imm-absent" || pn == "temporal" || pn == "temporal-zone" || pn == "bound-lower" {
+			continue
+		}
+		if on != "binding" && on != "node" {
+			continue
+		}
+		if sn == "stored" && on == "node" {
+			continue
+		}
+		res = append(res, sh)
+	}
+	return res
+}
+
+// DenseDataSet draws graphs over very few nodes and predicate ids, so that
+// joins, repeated values and ties are frequent.
+func DenseDataSet(rng *rand.Rand, graphs, size int, numeric bool) bq.Data {
+	ns := VNodes[:3]
+	preds := []*predicate.Predicate{MustImm("p"), MustImm("q"), MustTemp("p", T1), MustTemp("p", T2), MustTemp("p", T2Z), MustTemp("q", T3), MustTemp("q", T1)}
+	var objs []*triple.Object
+	for _, n := range ns {
+		objs = append(objs, triple.NewNodeObject(n), triple.NewNodeObject(n))
+	}
+	objs = append(objs, triple.NewLiteralObject(VLits[3]), triple.NewLiteralObject(VLits[8]), triple.NewPredicateObject(MustTemp("p", T1)), triple.NewPredicateObject(MustImm("q")))
+	if numeric {
+		for _, l := range VLits[:8] {
+			objs = append(objs, triple.NewLiteralObject(l))
+		}
+	}
+	d := bq.Data{}
+	for gi := 0; gi < graphs; gi++ {
+		seen := map[string]bool{}
+		var ts []*triple.Triple
+		n := size/2 + rng.Intn(size/2+1)
+		for tries := 0; len(ts) < n && tries < 30*n; tries++ {
+			t := MustTriple(ns[rng.Intn(len(ns))], preds[rng.Intn(len(preds))], objs[rng.Intn(len(objs))])
+			if k := cv.Triple(t); !seen[k] {
+				seen[k] = true
+				ts = append(ts, t)
+			}
+		}
+		d[GraphVars[gi]] = ts
+	}
+	return d
 }
